@@ -8,7 +8,7 @@
 From Coq Require Import ZArith QArith List Bool Permutation Arith.
 From VL Require Import Prelude.Sx Prelude.PyDict Prelude.GDict Model.GetNBest Model.HighestAverages Model.Condorcet Model.Convert
      Proofs.GetNBest_proofs Proofs.QOrd Proofs.Order_proofs Proofs.Convert_proofs Proofs.HA_proofs Proofs.Divisor_proofs Proofs.HAPerm_proofs Proofs.HARename_proofs.
-From VL Require Import Model.Quota Model.QuotaDistributor Proofs.QDOrder_proofs.
+From VL Require Import Model.Quota Model.QuotaDistributor Proofs.QDOrder_proofs Model.STV Proofs.STVOrder_proofs.
 Import ListNotations.
 Close Scope Q_scope.
 Close Scope Z_scope.
@@ -124,6 +124,50 @@ Example C10_quota_example :
     = LR_ok [(K 2%positive, 1%Z); (K 1%positive, 2%Z); (KT [4%positive; 3%positive], 1%Z)].
 Proof. vm_compute. repeat split; reflexivity. Qed.
 
+(* ---- the transferable-vote count (STV with Gregory transfers, TransferableVoteDistributor / Selector: quota election,
+   over-count correction, surplus transfer, elimination by get_n_best, the elect-all-remaining shortcut, the fixpoint
+   stop): presenting the ballots (and the previous gains) in another order gives the same stop reason, the same seats
+   as a dictionary, and count by count the same totals and the same elected as dictionaries (only their order differs).
+   [ballots_distinct]: the profile is a dictionary keyed by ballots - no two keys are equal as Python compares them
+   (shared ranks as sets). *)
+Theorem C10_stv_order : forall (cf : cfg) (votes votes' : list (ballot * Q)) (n : Z) (prev prev' caps : list (C * Z)),
+  ballots_distinct votes -> Permutation votes votes' -> NoDup (map fst prev) -> Permutation prev prev' ->
+  let t := stv cf votes n prev caps in
+  let t' := stv cf votes' n prev' caps in
+  t_stop t = t_stop t' /\
+  (forall c, dget (t_seats t) c = dget (t_seats t') c) /\
+  Permutation (t_seats t) (t_seats t') /\ NoDup (map fst (t_seats t)) /\
+  Forall2 (fun x y => Permutation (fst x) (fst y) /\ Permutation (snd x) (snd y)) (t_counts t) (t_counts t').
+Proof.
+  intros cf votes votes' n prev prev' caps Hd Hp Hn Hpp t t'.
+  destruct (stv_perm cf votes votes' n prev prev' caps Hd Hp Hn Hpp) as (H1 & H2 & H3 & H4).
+  split; [exact H4|]. split; [intros c; apply dget_perm; assumption|]. split; [exact H3|]. split; [exact H2|exact H1].
+Qed.
+
+Definition C10_stv_cf : cfg :=
+  Build_cfg (Some (fun v s => Qred (inject_Z (Qround.Qfloor (v / inject_Z (s + 1))) + 1))%Q) true false (-1)%Z.
+Definition C10_stv_votes : list (ballot * Q) :=
+  [([IP 1; IP 2; IP 3]%positive, 4#1); ([IP 2; IP 1]%positive, 7#2); ([IS [3;4]; IP 1]%positive, 2#1);
+   ([IP 4; IS [1;2]]%positive, 2#1); ([IP 3]%positive, 1#1)]%Q.
+
+(* non-vacuity: a profile with shared ranks satisfies the hypothesis; the two runs list the piles in different orders *)
+Example C10_stv_example :
+  ballots_distinct C10_stv_votes /\
+  let caps := [(1%positive, 1%Z); (2%positive, 1%Z); (3%positive, 1%Z); (4%positive, 1%Z)] in
+  let t := stv C10_stv_cf C10_stv_votes 2 [] caps in
+  let t' := stv C10_stv_cf (rev C10_stv_votes) 2 [] caps in
+  t_seats t = [(1%positive, 1%Z); (2%positive, 1%Z)] /\ t_seats t' = t_seats t /\ t_stop t = None /\
+  option_map fst (hd_error (t_counts t)) = Some [(Some 1%positive, 5#1); (Some 2%positive, 7#2); (Some 4%positive, 3#1); (None, 1#1)]%Q /\
+  option_map fst (hd_error (t_counts t')) = Some [(Some 4%positive, 3#1); (Some 2%positive, 7#2); (Some 1%positive, 5#1); (None, 1#1)]%Q.
+Proof.
+  split.
+  - intros b b' Hb Hb' E. simpl in Hb, Hb'.
+    repeat (destruct Hb as [<-|Hb];
+      [repeat (destruct Hb' as [<-|Hb']; [first [reflexivity | (vm_compute in E; discriminate E)]|]); destruct Hb'|]).
+    destruct Hb.
+  - vm_compute. repeat split; reflexivity.
+Qed.
+
 Print Assumptions C10_count_characterisation.
 Print Assumptions C10_order.
 Print Assumptions C10_symmetric.
@@ -134,3 +178,4 @@ Print Assumptions C10_highest_averages_rename.
 Print Assumptions C10_quota_distributor_order.
 Print Assumptions C10_largest_remainder_order.
 Print Assumptions C10_quota_fn_ext.
+Print Assumptions C10_stv_order.
